@@ -11,7 +11,7 @@ CSucc == IntSucc(cw, VSet(CV)) \cup S_Read(cw)
 CInit == GInit /\ cw = w
 CNext == \/ /\ cw' \in CSucc /\ UNCHANGED gvars
          \/ /\ CSucc = {} /\ ~fin /\ Len(hist) < D /\ CV \in alive
-            /\ \E s \in FreeStims : GStep(s) /\ StimEn(cw, s) /\ cw' = StimF(cw, s)
+            /\ \E s \in {s \in FreeStims : s.op \in Ops} : GStep(s) /\ StimEn(cw, s) /\ cw' = StimF(cw, s)
 CSpec == CInit /\ [][CNext]_cvars
 Confluent == (CSucc = {} /\ CV \in alive) => cw = ws[CV]
 =============================================================================
